@@ -133,7 +133,7 @@ class FakeSocket:
         self.family = family
         self.addr_index = addr_index
         self.state = "created"     # created | connected | closed | detached
-        self.tmo = "unset"
+        self.tmo = -2          # settimeout() not called yet (-1 stands for None)
         self.opts = []
         self.raw = None            # sid of the raw socket when this is a TLS wrapper
         self.conn = None
